@@ -2347,7 +2347,7 @@ theorem aroundPayload_of_norm (S : Schema) (doc : Node) (f t : Nat)
   simp only [StepWF, Bool.and_eq_true, decide_eq_true_eq] at hwf
   intro gap res hgap hres
   have hg := fit_around_gap_valid S doc f t req hv F T G1 G2 sl ins b h gap hgap
-  exact insertAt_openValid S sl res ins gap.content hg (hsn sl rfl) hwf.2 hval hres
+  exact insertAt_openValid S sl res ins gap.content hg (hsn sl rfl) hval hres
 
 /-- **`insertInline_valid_of_norm`** — `insertInline_valid_partial` with the residual reduced to the normal form of the
     emitted slice (a decidable property of the recorded step): no payload hypothesis left for either step kind -/
